@@ -714,18 +714,50 @@ void runC11(Ctx &c)
             Model copyModel;
             uint64_t hh = 0;
             const int len = r.range(4, 16);
+            Problem prevP;
+            bool havePrevP = false;
             for (int step = 0; step < len && !c.case_failed; ++step)
             {
                 Problem p = genProblem(r, od.first, od.second, r.range(1, 12));
+                if (havePrevP && r.coin(0.4))
+                {
+                    // partly unchanged inputs: the same durations again (from the same or another start time), or only the
+                    // start time moved
+                    Problem q = genProblem(r, od.first, od.second, prevP.N);
+                    q.T = prevP.T;
+                    int k = r.range(0, 2);
+                    if (k == 0)
+                        q.t0 = prevP.t0;
+                    else if (k == 2)
+                    {
+                        q.P = prevP.P;
+                        q.bc = prevP.bc;
+                    }
+                    p = q;
+                }
+                prevP = p;
+                havePrevP = true;
                 hh = mix64(hh, hashProblem(p));
-                if (r.coin())
+                const bool viaDur = r.coin();
+                if (viaDur)
                     S->updateDur(p.T, p.P, p.t0, p.bc);
                 else
                     S->updatePts(p.timePoints(), p.P, p.bc);
-                trace.push_back("spline.update N=" + std::to_string(p.N));
-                auto F = makeSplineDur(p);
+                trace.push_back(std::string(viaDur ? "spline.update(durations) N=" : "spline.update(time points) N=") + std::to_string(p.N));
+                // the trajectory a freshly constructed spline exposes for the same latest inputs
+                auto F = viaDur ? makeSplineDur(p) : makeSplinePts(p);
                 std::vector<double> cu = S->cumTimes();
                 bool same = S->trajNumSegments() == p.N && S->trajInitialized();
+                same = same && bitEqualVec(S->breakpoints(), F->breakpoints()) && bitEqualMat(S->coeffs(), F->coeffs()) && bitEqual(S->startTime(), F->startTime()) && bitEqual(S->endTime(), F->endTime());
+                {
+                    std::vector<double> cf = F->cumTimes();
+                    for (int q = 0; q < 4; ++q)
+                    {
+                        double t = r.uni(cf.front() - 0.3, cf.back() + 0.3);
+                        for (int k = 0; k <= p.ncoef(); ++k)
+                            same = same && sameVec(S->trajEval(t, k), F->trajEval(t, k));
+                    }
+                }
                 for (int q = 0; q < 5; ++q)
                 {
                     double t = r.uni(cu.front() - 0.3, cu.back() + 0.3);
